@@ -27,6 +27,15 @@ def IKinSpaceConstrained(screw_list, ee_home, ee_goal, theta_list,
         boolean: success
 
     """
+    # The start vector obeys the limits like every later iterate: a start outside them that
+    # already meets the goal would otherwise be returned as a "solution" (on a copy: the
+    # caller's array is left alone)
+    theta_list = theta_list.copy()
+    for j in range(len(theta_list)):
+        if theta_list[j] < joint_mins[j]:
+            theta_list[j] = joint_mins[j]
+        if theta_list[j] > joint_maxs[j]:
+            theta_list[j] = joint_maxs[j]
     ee_current = FKinSpace(ee_home, screw_list, theta_list)
     error_vec = np.dot(Adjoint(ee_current),
             se3ToVec(MatrixLog6(np.dot(TransInv(ee_current), ee_goal))))
